@@ -444,7 +444,7 @@ func (b *builder) link() M {
 	return b.ext(l)
 }
 
-var mediaTypes = []string{"application/json", "application/json; charset=utf-8", "application/x-www-form-urlencoded", "multipart/form-data", "text/plain", "application/*", "*/*", "application/problem+json", "text/csv", "application/octet-stream"}
+var mediaTypes = []string{"application/json", "application/json; charset=utf-8", "application/x-www-form-urlencoded", "multipart/form-data", "text/plain", "application/*", "*/*", "application/problem+json", "text/csv", "application/octet-stream", "application/yaml"}
 
 func (b *builder) mediaType(mt string) M {
 	m := M{}
@@ -490,6 +490,13 @@ func (b *builder) mediaType(mt string) M {
 		s = M{"type": "string"}
 		if mt == "application/octet-stream" {
 			s["format"] = "binary"
+		}
+	case "application/yaml":
+		if b.chance(2, "yamltypeless") {
+			// no type anywhere: whatever a YAML decoder delivers (mappings with keys of any kind included) gets here
+			s = M{"properties": M{"a": M{"type": "integer"}, "k": M{"properties": M{"z": M{"type": "string"}}, "required": []any{"z"}}}}
+		} else {
+			s = b.schema(b.cfg.SchemaDepth, true)
 		}
 	default:
 		s = b.schema(b.cfg.SchemaDepth, true)
